@@ -278,7 +278,7 @@ func (fr *frame) havocAll(why string) {
 	u.note("%s: whole heap havoc'd: %s", fr.fn.Name(), why)
 	ws := fr.st.ws
 	alloc := fr.st.get(u, u.regKey(allocKey, "Int"))
-	fr.st = &state{over: map[string]string{}, base: &entryProv{tag: fr.tag(fmt.Sprintf("hv%d", u.nfresh)), cache: map[string]string{}}, ws: ws}
+	fr.st = &state{over: map[string]string{}, base: &entryProv{tag: fr.tag(fmt.Sprintf("hv%d", u.nfresh)), cache: map[string]string{}}, ws: ws, u: u}
 	u.nfresh++
 	na := fr.st.get(u, allocKey)
 	u.assert("(>= " + na + " " + alloc + ")")
